@@ -528,6 +528,7 @@ class CallGraph:
                     return targets, externals, ext_methods, untyped, None
             rt = self.expr_types(f, fn.value, env, getattr(self, "_elem_cache", {}))
             typed = False
+            rt = {t for t in rt if t != "ext:NoneType"} or rt
             for t in rt:
                 if t.startswith("cls:"):
                     typed = True
